@@ -366,6 +366,7 @@ func concreteTypeOf(v ssa.Value) types.Type {
 
 type gekHit struct {
 	mac, key, iv Val
+	hash         string
 	call         *ssa.Call
 	ctors        map[string]bool
 }
@@ -403,6 +404,49 @@ func evalConst(v ssa.Value, bind map[*ssa.Parameter]Val) Val {
 // followInit walks the static call chain from a suite's Init method, carrying constant
 // parameter bindings, and collects the GenerateEncryptionKeys call(s) and cipher constructors reached.
 func (c *Ctx) followInit(fn *ssa.Function, bind map[*ssa.Parameter]Val, depth int, hits *[]gekHit, ctors map[string]bool) {
+	c.followInitV(fn, bind, map[*ssa.Parameter]ssa.Value{}, depth, hits, ctors)
+}
+
+// hashFuncName resolves a func() hash.Hash value to the constructor it denotes: a function
+// value, the result of a HashFunc() accessor that returns one, or a parameter bound by a caller.
+func hashFuncName(v ssa.Value, vbind map[*ssa.Parameter]ssa.Value, d int) string {
+	if d > 6 || v == nil {
+		return "?"
+	}
+	switch x := v.(type) {
+	case *ssa.Function:
+		return short(x)
+	case *ssa.MakeClosure:
+		if f, ok := x.Fn.(*ssa.Function); ok {
+			return short(f)
+		}
+	case *ssa.ChangeType:
+		return hashFuncName(x.X, vbind, d+1)
+	case *ssa.Parameter:
+		if b, ok := vbind[x]; ok {
+			return hashFuncName(b, nil, d+1)
+		}
+	case *ssa.Call:
+		if callee := x.Call.StaticCallee(); callee != nil && len(callee.Blocks) > 0 {
+			if callee.Synthetic != "" {
+				// promoted-method wrapper: follow its single call
+				for _, b := range callee.Blocks {
+					for _, in := range b.Instrs {
+						if c2, ok := in.(*ssa.Call); ok {
+							return hashFuncName(c2, nil, d+1)
+						}
+					}
+				}
+			}
+			if rv, _ := singleReturn(callee, 0); rv != nil {
+				return hashFuncName(rv, nil, d+1)
+			}
+		}
+	}
+	return "?"
+}
+
+func (c *Ctx) followInitV(fn *ssa.Function, bind map[*ssa.Parameter]Val, vbind map[*ssa.Parameter]ssa.Value, depth int, hits *[]gekHit, ctors map[string]bool) {
 	if fn == nil || fn.Blocks == nil || depth > 5 {
 		return
 	}
@@ -418,7 +462,11 @@ func (c *Ctx) followInit(fn *ssa.Function, bind map[*ssa.Parameter]Val, depth in
 			}
 			name := short(callee)
 			if name == pkgPRF+".GenerateEncryptionKeys" {
-				*hits = append(*hits, gekHit{mac: evalConst(call.Call.Args[3], bind), key: evalConst(call.Call.Args[4], bind), iv: evalConst(call.Call.Args[5], bind), call: call})
+				h := gekHit{mac: evalConst(call.Call.Args[3], bind), key: evalConst(call.Call.Args[4], bind), iv: evalConst(call.Call.Args[5], bind), call: call}
+				if len(call.Call.Args) > 6 {
+					h.hash = hashFuncName(call.Call.Args[6], vbind, 0)
+				}
+				*hits = append(*hits, h)
 				continue
 			}
 			if strings.HasPrefix(name, pkgCS+".New") {
@@ -429,12 +477,20 @@ func (c *Ctx) followInit(fn *ssa.Function, bind map[*ssa.Parameter]Val, depth in
 				continue
 			}
 			nb := map[*ssa.Parameter]Val{}
+			nv := map[*ssa.Parameter]ssa.Value{}
 			for i, p := range callee.Params {
 				if i < len(call.Call.Args) {
 					nb[p] = evalConst(call.Call.Args[i], bind)
+					av := call.Call.Args[i]
+					if pp, isP := av.(*ssa.Parameter); isP {
+						if b, ok := vbind[pp]; ok {
+							av = b
+						}
+					}
+					nv[p] = av
 				}
 			}
-			c.followInit(callee, nb, depth+1, hits, ctors)
+			c.followInitV(callee, nb, nv, depth+1, hits, ctors)
 		}
 	}
 }
@@ -500,6 +556,27 @@ func ruleSuiteConstants(c *Ctx, r *Report) {
 			cs = append(cs, k)
 		}
 		sort.Strings(cs)
+		// the PRF hash: what Init hands to the key-block expansion, and what the suite's HashFunc()
+		// (master secret, Finished, exporter) returns, must both be the suite's hash
+		r.Check(h.hash == spec.hash, "suite-hash", name+":key-block", c.ipos(h.call), "key block expanded with "+h.hash, "the key block is expanded with "+h.hash+" but the suite's PRF hash is "+spec.hash+" (RFC 5246 5 / the suite's definition)")
+		if hsel := ms.Lookup(nil, "HashFunc"); hsel != nil {
+			hf := c.Prog.MethodValue(hsel)
+			got := "?"
+			if hf != nil {
+				if hf.Synthetic != "" {
+					for _, b := range hf.Blocks {
+						for _, in := range b.Instrs {
+							if c2, ok := in.(*ssa.Call); ok {
+								got = hashFuncName(c2, nil, 0)
+							}
+						}
+					}
+				} else if rv, _ := singleReturn(hf, 0); rv != nil {
+					got = hashFuncName(rv, nil, 0)
+				}
+			}
+			r.Check(got == spec.hash, "suite-hash", name+":HashFunc()", c.pos(initFn.Pos()), "HashFunc() = "+got, "HashFunc() returns "+got+" but the suite's PRF hash is "+spec.hash)
+		}
 		r.Check(len(cs) == 1 && cs[0] == spec.ctor, "suite-cipher", name, c.pos(initFn.Pos()), "record cipher "+strings.Join(cs, ","), "record cipher constructed is "+strings.Join(cs, ",")+", the suite needs "+spec.ctor)
 	}
 	r.Floor(rule, n, 17)
